@@ -98,6 +98,18 @@ void h_tuple3(void){
   REACHED();
 }
 
+/* compile-time constant offset and shape (2,3,4): all 24 instantiations are produced by the kernel; a SYMBOLIC offset selects which one is compared with the
+ * run-time function and with the Horner form, so every instantiation is covered by one query */
+void h_ct234(void){
+  u64 out[72] = {0}, back[24] = {0}, rt[3] = {0}, shape[3] = {2, 3, 4};
+  u64 off = in_u64(0, 23);
+  k_indices_ct234(out, back);
+  k_indices_arr3(off, shape, rt);
+  for (int i = 0; i < 3; i++){ ASSERT(out[3*off + i] == rt[i], "constant-offset indices == run-time indices"); ASSERT(out[3*off + i] < shape[i], "index inside the shape"); }
+  ASSERT((out[3*off]*3 + out[3*off + 1])*4 + out[3*off + 2] == off, "Horner: the constant-offset result is the row-major multi-index of the offset");
+  ASSERT(back[off] == off, "offset(indices(off)) == off for constant operands");
+  OBS(out[3*off]); REACHED();
+}
 /* concrete (huge) shape per query, symbolic offset over the whole shape: SH0..SH5 are per-query constants */
 #ifdef SH0
 void h_big(void){
